@@ -13,11 +13,11 @@ pub static DEF: CheckDef = CheckDef {
     id: "C03",
     run,
     replay,
-    rule: "multi-bank ROMs (MBC1 with 8 and 64 banks, MBC3 with 32 banks) whose banks hold different generated blocks (different instructions, different lengths, different terminators) at the same eight slot addresses 0x4000 + k*0x40, bank-0 blocks, bank-0 trampolines (LD A,v; LD (bank register),A; JP slot) and a bank-0 block that runs through 0x3FFF into the switchable bank (its last instruction straddling the boundary in three of four ROMs). proptest histories of 1-60 operations over {run slot k, run bank-0 block j, guest switch (trampoline: value, register, slot), host switch (write to 0x0000-0x7FFF between blocks), switch back to the first bank, continue (follow the last block's own terminator), run the fall-through block}. Three executors are stepped with Core::run_code_block(): the jit build with its persistent cache, the jit build with a new empty cache before every step, the interpreter build. After every step all CPU/device scalars and the complete memory must be pairwise identical. Non-trivial = history that executes a slot address under a different mapped bank than the one it was first translated under (class revisit-after-switch), and ones that return to the first bank afterwards (switch-back); measured on the interpreter build; distinct by hash of (cartridge, history).",
+    rule: "multi-bank ROMs (MBC1 with 8 and 64 banks, MBC3 with 32 banks) whose banks hold different generated blocks (different instructions, different lengths, different terminators) at the same eight slot addresses 0x4000 + k*0x40, bank-0 blocks, bank-0 trampolines (LD A,v; LD (bank register),A; JP slot) and a bank-0 block that runs through 0x3FFF into the switchable bank (its last instruction straddling the boundary in three of four ROMs). proptest histories of 1-60 operations over {run slot k, run bank-0 block j, guest switch (trampoline: value, register, slot), host switch (write to 0x0000-0x7FFF between blocks), switch back to the first bank, continue (follow the last block's own terminator), run the fall-through block}. Three executors are stepped with Core::run_code_block(): the jit build with its persistent cache, the jit build with a new empty cache before every step, the interpreter build. After every step all CPU/device scalars and the complete memory must be pairwise identical. Plus one long run of the bank-switching cache-pressure program (C04): the 8 MiB translation area is recycled every few iterations with different banks mapped, and addresses translated before a restart are executed again after it. Non-trivial = history that executes a slot address under a different mapped bank than the one it was first translated under (class revisit-after-switch), and ones that return to the first bank afterwards (switch-back); measured on the interpreter build; distinct by hash of (cartridge, history).",
     assumptions: &[
         "the interpreter build is the reference; blocks in the switchable region never write below 0x8000 (known finding C01 jit-self-bank-switch is excluded by construction)",
     ],
-    required_classes: &["revisit-after-switch", "switch-back", "guest-switch", "host-switch", "fall-through-4000", "mbc1", "mbc1-large", "mbc3", "cold-cache-step", "continue-step"],
+    required_classes: &["cache-restart-with-banks", "revisit-after-switch", "switch-back", "guest-switch", "host-switch", "fall-through-4000", "mbc1", "mbc1-large", "mbc3", "cold-cache-step", "continue-step"],
     exhaustive: false,
 };
 
@@ -362,10 +362,57 @@ fn op_strategy() -> impl Strategy<Value = Op> {
     ]
 }
 
+/// the bank-switching cache-pressure program of C04 on the three executors
+fn run_pressure(rec: &mut Rec, steps: u32) {
+    let case = json!({"kind": "cache-pressure-banks", "steps": steps});
+    rec.current(&case.to_string());
+    rec.eval(1);
+    rec.class("cache-restart-with-banks", 1);
+    rec.nontrivial(fnv(case.to_string().as_bytes()));
+    let rom = crate::checks::c04::pressure_rom2();
+    let mut w = World { warm: j::M::new(&rom), cold: j::M::new(&rom), int: i::M::new(&rom) };
+    for step in 0..steps {
+        let pc0 = w.int.regs().pc;
+        // the cold executor translates every block anew: give it a fresh cache only
+        // every few steps here, the blocks are 16 K instructions long
+        if step % 4 == 0 {
+            w.cold.cache_reset();
+        }
+        let r = guarded(|| {
+            w.int.step_block();
+            w.warm.step_block();
+            w.cold.step_block();
+        });
+        if let Err(m) = r {
+            rec.violation("pressure-panic", case.clone(), format!("step {} (block at {:#06x}): panicked: {}", step, pc0, m));
+            return;
+        }
+        let sw = w.warm.scalars();
+        let sc = w.cold.scalars();
+        let si = w.int.scalars();
+        for (k, (n, x)) in si.iter().enumerate() {
+            if sw[k].1 != *x {
+                rec.violation("pressure-warm-vs-interpreter", case.clone(), format!("step {} (block at {:#06x}, ROM bank {}): {}: warm cache {:#x}, interpreter {:#x}", step, pc0, w.int.rom_bank(), n, sw[k].1, x));
+                return;
+            }
+            if sc[k].1 != *x {
+                rec.violation("pressure-cold-vs-interpreter", case.clone(), format!("step {} (block at {:#06x}, ROM bank {}): {}: cold cache {:#x}, interpreter {:#x}", step, pc0, w.int.rom_bank(), n, sc[k].1, x));
+                return;
+            }
+        }
+    }
+    if let Some(d) = diff_state(&w.warm, &w.int, &[]) {
+        rec.violation("pressure-warm-vs-interpreter", case.clone(), format!("at the end: {}", d));
+    }
+}
+
 fn run(rec: &mut Rec) {
     // translation-heavy (a new code cache per step): only some shards take part
     if rec.ctx.nshards >= 4 && rec.ctx.shard % 2 == 1 {
         return;
+    }
+    if rec.ctx.shard == 0 {
+        run_pressure(rec, rec.ctx.tier.pick(700, 8000));
     }
     let cases = rec.ctx.tier.pick(400u32, 12_000);
     let strat = (0u8..3, any::<u16>(), prop::collection::vec(op_strategy(), 1..60)).prop_map(|(cart, seed, ops)| Case { cart, seed, ops });
@@ -379,6 +426,10 @@ fn run(rec: &mut Rec) {
 }
 
 fn replay(case: &Value, rec: &mut Rec) {
+    if case.get("kind").and_then(|k| k.as_str()) == Some("cache-pressure-banks") {
+        run_pressure(rec, case.get("steps").and_then(|v| v.as_u64()).unwrap_or(700) as u32);
+        return;
+    }
     let c: Case = match case.get("case").cloned().and_then(|v| serde_json::from_value(v).ok()) {
         Some(c) => c,
         None => {
